@@ -12,7 +12,9 @@ for p in props:
     pid = p["id"]
     try:
         m = importlib.import_module(f"harness.props.{pid.lower()}")
-    except ModuleNotFoundError:
+    except ModuleNotFoundError as e:
+        if e.name != f"harness.props.{pid.lower()}":
+            raise SystemExit(f"mkmanifest: cannot import the check of {pid} ({e}); run with /venv/bin/python")
         na.append({"property_id": pid, "reason": "check not built yet (work in progress; see DESIGN.md §5 for the planned model and theorems)"})
         continue
     if getattr(m, "READY", True) is False:
